@@ -441,7 +441,13 @@ impl Monitor for C05 {
             if let Some(b) = res {
                 match sh.repetition_verdict(&b) {
                     1 => s.count(if *c == PASS { "attempt_pass_unchanged" } else { "attempt_step4_unchanged" }),
-                    2 => s.count(if *c == PASS { "attempt_pass_third" } else { "attempt_step4_third" }),
+                    2 => {
+                        s.count(if *c == PASS { "attempt_pass_third" } else { "attempt_step4_third" });
+                        s.max("latest_turn_index_of_a_third_repetition_attempt", sh.turns as u64);
+                        if sh.turns >= 256 {
+                            s.count("third_repetition_attempts_after_turn_256");
+                        }
+                    }
                     _ => {}
                 }
             }
@@ -451,7 +457,7 @@ impl Monitor for C05 {
         s.add("turn_ends_judged", self.turn_ends);
         s.add("second_occurrences", self.second_occ);
         s.add("turn_ends_after_capture_in_turn", self.after_capture);
-        for k in ["attempt_pass_unchanged", "attempt_step4_unchanged", "attempt_pass_third", "attempt_step4_third"] {
+        for k in ["attempt_pass_unchanged", "attempt_step4_unchanged", "attempt_pass_third", "attempt_step4_third", "third_repetition_attempts_after_turn_256"] {
             s.add(k, 0);
         }
         s.max("longest_game_turns", self.longest as u64);
